@@ -52,7 +52,11 @@ def scen_callsite(env, cfg):
     L = 30
     if kind == 'LPF':
         # a fixed probe is added so that concrete replays never degenerate to the zero record
-        s = [v + (1 if i == 7 else env.const('0.25')) for i, v in enumerate(env.reals('s', L, -3, 3))]
+        if cfg.get('vtype') == 'int':
+            # a record of integer samples (ADC codes, an upsampled bit pattern): the container keeps the integer dtype
+            s = [env.int(f's[{i}]', -3, 3) + (1 if i == 7 else 0) for i in range(L)]
+        else:
+            s = [v + (1 if i == 7 else env.const('0.25')) for i, v in enumerate(env.reals('s', L, -3, 3))]
         w = [v + (1 if i == 11 else 0) for i, v in enumerate(env.reals('w', L, -3, 3))] if noise else None
         arg = T.electrical_signal(list(s), list(w) if noise else None) if form == 'es' else env.arr(list(s))
         kw = {}
@@ -283,6 +287,9 @@ def configs(tier):
                     for pol in (1, 2):
                         out.append((f'callsite-BPF-pol{pol}-{"noise" if noise else "clean"}-n{order}', scen_callsite,
                                     dict(kind='BPF', form='os', pol=pol, noise=noise, order=order), {'validate': 1}))
+    for form in ('es', 'ndarray'):
+        out.append((f'callsite-LPF-{form}-clean-nNone-gvfs-int-samples', scen_callsite,
+                    dict(kind='LPF', form=form, noise=False, order=None, fsarg=False, vtype='int'), {'validate': 1}))
     for kind in ('LPF', 'BPF'):
         out.append((f'history-{kind}-gv-reconfigured', scen_history, dict(kind=kind), {'validate': 1}))
     grid = [(0.05, 2), (0.2, 4), (0.44, 4)] if q else [(r, n) for r in (0.02, 0.05, 0.1, 0.2, 0.3, 0.44) for n in (1, 2, 4, 8)]
